@@ -6,10 +6,17 @@ From Boreal Require Import Base.Prelude Base.ListX Base.Bytes Model.Literals Mod
 
 (* the pinned pipeline: per-variable (atom, start) set, push instead of sorted insert, key halved
    whenever wide *)
+(* the atom ranking of the pinned tree (boreal/src/atoms.rs at the pinned commit), written out so that
+   the refutations do not depend on today's translated constants *)
+Definition byte_rank_pinned (b : N) : N :=
+  if memb N.eqb b [0; 204; 255] then 10 else if is_lower b then 18 else 20.
+Definition pick_pinned : bytes -> N * N :=
+  pick_atom_with (atom_rank_with byte_rank_pinned [0; 32; 204; 255] 10 2).
+
 Definition var_step_pinned := var_step_with insert_match_pinned get_xor_key_pinned.
 Definition model_scan_text_pinned (prm : sparams) (d : tdecl) (mem : bytes) : list smatch :=
   let vars := [text_matcher d] in
-  match scan_region_with var_step_pinned scan_single_variable_pinned (acscan_new_pinned vars) prm vars
+  match scan_region_with var_step_pinned scan_single_variable_pinned (acscan_new_pinned pick_pinned vars) prm vars
           {| rg_start := 0; rg_mem := mem |} (empty_matches vars) with
   | [r] => r
   | _ => []
